@@ -54,7 +54,7 @@ func newDrvEnv() *drvEnv {
 	mux, err := nl.NewMux()
 	if err != nil {
 		fmt.Fprintln(os.Stderr, "harness: mux:", err)
-		os.Exit(3)
+		die(3)
 	}
 	e.mux = mux
 	go mux.Serve()
@@ -63,13 +63,13 @@ func newDrvEnv() *drvEnv {
 	udp, err := net.ListenUDP("udp4", &net.UDPAddr{IP: net.IPv4(127, 0, 0, 1), Port: 0})
 	if err != nil {
 		fmt.Fprintln(os.Stderr, "harness: udp:", err)
-		os.Exit(3)
+		die(3)
 	}
 	e.udp = udp
 	g, err := forwarder.VerifNewGtp5g(e.wg, mux, e.k, e.pk, 31, 7, udp)
 	if err != nil {
 		fmt.Fprintln(os.Stderr, "harness: gtp5g:", err)
-		os.Exit(3)
+		die(3)
 	}
 	g.HandleReport(nullHandler{})
 	e.g = g
